@@ -178,7 +178,7 @@ class C02(SingleRun):
             "statuses and a control request landed while >= 1 action was in flight")
     faults = dict(poll_skip=0.05, poll_twice=0.05, restart=0.03, pause=0.04, resume_early=0.1, cancel=0.04,
                   bad_request=0.03, pending=0.05, cancel_while_pausing=0.1, act_cancel_solo=0.02, early_pause=0.3,
-                  early_cancel=0.15)
+                  early_cancel=0.15, act_paused=0.04)
 
     def nontrivial(self, r):
         w = r["world"]
@@ -193,7 +193,7 @@ class C03(SingleRun):
             "status other than succeeded, or >= 2 quiescent points in one run")
     faults = dict(poll_skip=0.1, poll_twice=0.05, restart=0.03, pause=0.04, resume_early=0.05, cancel=0.04,
                   bad_request=0.02, rerun=0.5, pending=0.05, cancel_while_pausing=0.1, act_cancel_solo=0.02, early_pause=0.3,
-                  early_cancel=0.15, cancel_at_retry=0.05, pause_at_retry=0.05)
+                  early_cancel=0.15, cancel_at_retry=0.05, pause_at_retry=0.05, act_paused=0.04)
 
     def profile(self, seed, tier, as_prop=None):
         p = SingleRun.profile(self, seed, tier, as_prop)
@@ -291,7 +291,7 @@ class C10(SingleRun):
             "success, failure, timeout or canceled; joins, retries and with-items windows downstream; non-trivial = >= 1 action in "
             "flight at the request and a join, retry or with-items task in the definition")
     faults = dict(poll_skip=0.05, restart=0.03, cancel=0.12, pause=0.04, resume_early=0.1, p_fail=0.1, bad_request=0.02,
-                  cancel_while_pausing=0.1, act_cancel_solo=0.02, early_pause=0.2, early_cancel=0.3, cancel_at_retry=0.15)
+                  cancel_while_pausing=0.1, act_cancel_solo=0.02, early_pause=0.2, early_cancel=0.3, cancel_at_retry=0.15, act_paused=0.03)
 
     def profile(self, seed, tier, as_prop=None):
         p = SingleRun.profile(self, seed, tier, as_prop)
